@@ -181,6 +181,43 @@ Theorem C32_grouping_by_name_refuted :
       /\ group_of shipped (fun t => t) NameVariant.pending (descr_key shipped NameVariant.beta) = [NameVariant.beta]).
 Proof. exact (conj NameVariant.refuted (conj NameVariant.run_differs NameVariant.shipped_separates)). Qed.
 
+(** 5. Attempts.  The job scratch directory is keyed by the evaluation hash, which leaves out
+    config_args and JobInfo arguments, so earlier attempts under the same hash may have staged other
+    arguments.  After ANY history of attempts on the directory, an attempt's remote run reads the
+    input staged by that attempt and yields the local outcome of ITS arguments (given the usual
+    condition on the output file); after a history of failed attempts no condition is needed. *)
+Theorem C32_attempts_eq_local :
+  forall V pbytes (dump : obj V -> pbytes) load f valid tb_of,
+  (forall o, load (dump o) = Some o) ->
+  forall prefix nc (hist : list (job V)) (j : job V) (fs : fs_t pbytes),
+  hexstr (j_hash j) = true ->
+  prior_ok' V pbytes load f valid prefix nc j (run_attempts V pbytes dump load f valid tb_of shipped prefix nc hist fs) ->
+  snd (remote_single V pbytes dump load f valid tb_of shipped prefix nc j
+         (run_attempts V pbytes dump load f valid tb_of shipped prefix nc hist fs)) = local V f j.
+Proof. exact main_attempts. Qed.
+
+Theorem C32_attempts_after_failures :
+  forall V pbytes (dump : obj V -> pbytes) load f valid tb_of,
+  (forall o, load (dump o) = Some o) ->
+  forall prefix nc (hist : list (job V)) (j : job V) (fs : fs_t pbytes),
+  hexstr (j_hash j) = true -> fresh V pbytes prefix fs j ->
+  Forall (fun a => j_hash a = j_hash j /\ exists e, f (j_args a) (j_kwargs a) = Exc V e) hist ->
+  snd (remote_single V pbytes dump load f valid tb_of shipped prefix nc j
+         (run_attempts V pbytes dump load f valid tb_of shipped prefix nc hist fs)) = local V f j.
+Proof. exact main_attempts_after_failures. Qed.
+
+(** staging the input only when no input file exists (variant [if_absent]) is refuted: after a
+    failed attempt with other arguments the next attempt of the same hash reproduces the stale
+    exception instead of its own result; with the shipped staging it agrees with the local call *)
+Theorem C32_stage_if_absent_refuted :
+  Instance.second_attempt (if_absent shipped) = CReject Instance.V (Leaf 99)
+  /\ local Instance.V Instance.f Instance.attempt2 = CDone Instance.V (Seq [Leaf 3; Leaf 10])
+  /\ Instance.second_attempt shipped = local Instance.V Instance.f Instance.attempt2.
+Proof. exact Instance.if_absent_refuted. Qed.
+
+Print Assumptions C32_attempts_eq_local.
+Print Assumptions C32_attempts_after_failures.
+Print Assumptions C32_stage_if_absent_refuted.
 Print Assumptions C32_array_group_own_task.
 Print Assumptions C32_array_group_elem_eq_local.
 Print Assumptions C32_grouping_by_name_refuted.
